@@ -103,7 +103,7 @@ def cfg_with(cfg, overrides, tmpdir):
     """Copy spec/<cfg> to tmpdir with `Name = value` / `Name <- value` constant lines replaced."""
     text = open(os.path.join(SPEC_DIR, cfg)).read()
     for name, val in overrides.items():
-        text, n = re.subn(rf'^(\s*{re.escape(name)}\s*)(=|<-)\s*\S+\s*$', lambda m: f'{m.group(1)}{m.group(2)} {val}', text, flags=re.M)
+        text, n = re.subn(rf'^(\s*{re.escape(name)}\s*)(=|<-)\s*\S.*$', lambda m: f'{m.group(1)}{m.group(2)} {val}', text, flags=re.M)
         if n != 1:
             raise MachineryError(f'cfg override {name} matched {n} lines in {cfg}')
     path = os.path.join(tmpdir, 'ovr_' + os.path.basename(cfg))
